@@ -90,8 +90,23 @@ def opt_sort(t: tuple):
     return _opt_sorts[key]
 
 
+_dict_sorts = {}
+
+
+def dict_sort(t: tuple):
+    """A dict used as a VALUE (element of a collection / value of another dict): the pair (domain, value array) as one tuple term."""
+    ks, vs = sort_of(t[1]), sort_of(t[2])
+    key = (str(ks), str(vs))
+    if key not in _dict_sorts:
+        nm = "Dict_" + "_".join(k.replace(" ", "").replace("(", "L").replace(")", "R").replace(",", "_") for k in key)
+        _dict_sorts[key] = z3.TupleSort(nm, [z3.ArraySort(ks, z3.BoolSort()), z3.ArraySort(ks, vs)])
+    return _dict_sorts[key]
+
+
 def sort_of(t: tuple):
     k = t[0]
+    if k == "dict" and len(t) >= 3 and t[1] != ("none",):
+        return dict_sort(t)[0]
     if k == "bool":
         return z3.BoolSort()
     if k == "int":
@@ -250,6 +265,9 @@ def to_term(v: V):
         s = opt_sort(v.t[1])
         isnone, inner = v.x
         return z3.If(isnone, s.constructor(0)(), s.constructor(1)(to_term(inner)))
+    if k == "dict" and v.x is not None:
+        s, mk, accs = dict_sort(v.t)
+        return mk(v.x[0], v.x[1])
     raise TypeError(f"no term for {v.t}")
 
 
@@ -263,6 +281,9 @@ def from_term(t, term) -> V:
     if k == "opt":
         s = opt_sort(t[1])
         return V(t, (s.recognizer(0)(term), from_term(t[1], s.accessor(1, 0)(term))))
+    if k == "dict":
+        s, mk, accs = dict_sort(t)
+        return V(t, (z3.simplify(accs[0](term)), z3.simplify(accs[1](term))))
     raise TypeError(f"no value from term for {t}")
 
 
